@@ -165,7 +165,9 @@ type Case struct {
 	WSeed  int64  `json:"wseed"` // every serialisation choice (layout, key order, timestamp syntax) derives from it
 	CtxTTL uint16 `json:"ctx_ttl"`
 	Split  bool   `json:"split,omitempty"` // Loki JSON: labels / entries of a stream may be spread over two members of the stream object
-	Cache  string `json:"cache,omitempty"` // "" = never-hit cache (clustered deployment); "set" = remembers every (day, fingerprint) of the request
+	Hist   int    `json:"hist,omitempty"`  // > 0: this body is step Step of history Hist: bodies decoded one after another in this process
+	Step   int    `json:"step,omitempty"`
+	Cache  string `json:"cache,omitempty"` // "" = never-hit cache (clustered deployment); "set" = remembers every (day, fingerprint, type) of the request; "shared" = one such cache for all steps of the history
 	Body   Body   `json:"body"`
 	Wire   string `json:"wire_hex,omitempty"` // the bytes handed to the parser (only kept when small)
 	Obs    Obs    `json:"obs"`
@@ -325,6 +327,16 @@ func parseEncLabels(s string) ([]KV, bool) {
 	return out, true
 }
 
+// per history: the announcement cache shared by its steps and the label-set table accumulated so far (a series
+// announced in an earlier step is not announced again)
+type histState struct {
+	cache *setCache
+	tab   []FpRow
+	seen  map[string]bool
+}
+
+var histStates = map[int]*histState{}
+
 func run(c *Case) {
 	wire := serialise(c)
 	if len(wire) <= 4096 {
@@ -341,6 +353,16 @@ func run(c *Case) {
 	}
 	c.Obs = Obs{Chunks: []Chunk{}, FpTab: []FpRow{}}
 	seen := map[string]bool{}
+	var hs *histState
+	if c.Cache == "shared" {
+		hs = histStates[c.Hist]
+		if hs == nil {
+			hs = &histState{cache: &setCache{seen: map[uint64]bool{}}, seen: map[string]bool{}}
+			histStates[c.Hist] = hs
+		}
+		seen = hs.seen
+		c.Obs.FpTab = append(c.Obs.FpTab, hs.tab...)
+	}
 	done := make(chan struct{})
 	var ch chan *model.ParserResponse
 	go func() {
@@ -348,6 +370,9 @@ func run(c *Case) {
 		var cache numbercache.ICache[uint64] = missCache{}
 		if c.Cache == "set" {
 			cache = &setCache{seen: map[uint64]bool{}}
+		}
+		if hs != nil {
+			cache = hs.cache
 		}
 		ch = parserOf(c.Proto)(ctx, bytes.NewReader(wire), cache)
 		// The real consumer (controller.doParse -> doPush goroutines, with retries) still holds the responses it
@@ -421,6 +446,9 @@ func run(c *Case) {
 	case <-time.After(60 * time.Second):
 		c.Obs.Err = "timeout"
 	}
+	if hs != nil {
+		hs.tab = append([]FpRow{}, c.Obs.FpTab...)
+	}
 	c.NRows = countEntries(c)
 	c.Coq = coqCase(c)
 }
@@ -466,9 +494,18 @@ func main() {
 		return
 	}
 	r := hx.Rand(f.Seed)
-	for i := 0; i < f.N; i++ {
-		c := gen(r, i)
-		run(&c)
-		out.Put(c)
+	for i := 0; i < f.N; {
+		var cs []Case
+		if every := envInt("C03_HISTORY_EVERY", 16); i%every == 5%every {
+			cs = genHistory(r, i, f.N)
+		}
+		if len(cs) == 0 {
+			cs = []Case{gen(r, i)}
+		}
+		for k := range cs {
+			run(&cs[k])
+			out.Put(cs[k])
+		}
+		i += len(cs)
 	}
 }
